@@ -25,3 +25,35 @@ def opassign_facts(F):
         'modify_every': [c for c in cs if c.target == 'eval::modify_every'],
         'closures': [s[2][2] for _bb, s in eb.aggregates(regn) if s[2][1] == 'closure'],
     }
+
+
+def order_rule(F, rep, rid):
+    """Every direct run2 site of Expr::OpAssign: first operand = value read from the lvalue; every evaluation that feeds the second
+    operand is dominated by that read; drop_lhs lies between the rhs evaluation and run2; the result is assigned."""
+    oa = opassign_facts(F)
+    eb = oa['body']
+    n = 0
+    for r in oa['run2']:
+        n += 1
+        rhs_roots = {(ro[1], ro[2]) for ro in eb.roots(r.args[3], through_calls=(r'::take$', r'::replace$')) if ro[0] == 'call'}
+        old_roots = {(ro[1], ro[2]) for ro in eb.roots(r.args[2]) if ro[0] == 'call'}
+        if not any('eval_lvalue_as_obj' in t or 'collect' in t or 'next' in t for t, _bb in old_roots):
+            rep.viol(rid, 'OpAssign|run2|first-operand', 'run2\'s first operand is not the value read from the lvalue (%s)' % sorted(old_roots), r.loc())
+            continue
+        bad = False
+        for (t, bbx) in rhs_roots:
+            if t in (oa['evaluate'], 'eval::eval_seq'):
+                for (t2, bby) in old_roots:
+                    if t2 == 'eval::eval_lvalue_as_obj' and not eb.dominates(bby, bbx):
+                        bad = True
+        drops = [c for c in oa['drop_lhs'] if eb.dominates(c.bb, r.bb)]
+        if bad:
+            rep.viol(rid, 'OpAssign|run2|rhs-before-read', 'the right-hand side of an op-assign is evaluated before the old value of the target is read: `x f= (x = ..; v)` observes the assignment made by its own right-hand side', r.loc())
+        elif not drops:
+            rep.viol(rid, 'OpAssign|run2|no-drop', 'run2 is reached without drop_lhs: the operator receives a shared handle', r.loc())
+        elif any(t in (oa['evaluate'], 'eval::eval_seq') and any(eb.dominates(d.bb, bbx) for d in drops) for (t, bbx) in rhs_roots):
+            rep.viol(rid, 'OpAssign|run2|rhs-after-drop', 'the right-hand side is evaluated after the slot was nulled: `x f= g(x)` would see null', r.loc())
+        else:
+            rep.ok(rid, 'op-assign at %s' % r.loc(), 'read old value -> evaluate rhs -> drop_lhs -> run2(old, rhs)')
+    rep.floor(rid, 'direct run2 sites in OpAssign', n, 2)
+    return oa
